@@ -770,6 +770,22 @@ class Batch:
         self.error = None
 
 
+def regenerate(ctx):
+    """T tie: Gen/HseqArity.lean (New1..9, FMap1..9, ForProduct1..9, ForSpectrum1..9) is regenerated from the
+    current source; the `*_gen` theorems of Props/C01 and Props/C03 equate it with the list model."""
+    return ctx.xlate("hseqarity", "HseqArity.lean", ["hseq/hseq.go", "optics/lens.go", "optics/reflector.go"])
+
+
+def apply_replay(ctx):
+    """`bin/check C0x --replay f`: generation is a function of (seed, tier), so a replay re-runs the
+    recorded seed and tier; the failing shape and request reappear under the same ids."""
+    if getattr(ctx, "replay", None):
+        import json
+        d = json.load(open(ctx.replay))
+        ctx.seed, ctx.tier = int(d.get("seed", ctx.seed)), d.get("tier", ctx.tier)
+        ctx.note("replay of %s: seed=%d tier=%s" % (ctx.replay, ctx.seed, ctx.tier))
+
+
 def run_batches(ctx, oracle, want, sizes, ptr_embed=True, seed_tag=0):
     """Generate len(sizes) batches (sizes[i] shapes each; the first gets the corner shapes), build and
     run the harness for each (in parallel), run the oracle on the printed requests.  Returns the batches.
